@@ -105,8 +105,10 @@ type c14W struct {
 }
 
 type c14Sink struct {
-	data    []byte
-	k       int // byte index that cannot be stored; -1 = none
+	data     []byte
+	k        int // byte index that cannot be stored; -1 = none
+	failCall int // index of the Write call that fails (call* modes); -1 = none
+	nwrites  int
 	short   bool
 	sticky  bool
 	oneshot bool // transient: only the first write that would cross k fails, later writes are accepted
@@ -119,8 +121,16 @@ type c14Sink struct {
 }
 
 func newC14Sink(k int, mode string) *c14Sink {
-	s := &c14Sink{k: k, heldAtFail: -1}
+	s := &c14Sink{k: k, failCall: -1, heldAtFail: -1}
 	switch mode {
+	// fault points per Write call: the k-th Write call of the destination fails whatever its
+	// offset and length (rejected whole, or half of it accepted), once or from then on
+	case "call":
+		s.k, s.failCall = -1, k
+	case "callshort":
+		s.k, s.failCall, s.short = -1, k, true
+	case "callsticky":
+		s.k, s.failCall, s.sticky = -1, k, true
 	case "full", "capacity": // positional: a later smaller write that still fits below k is accepted
 	case "short":
 		s.short = true
@@ -142,9 +152,18 @@ func (s *c14Sink) setCall(i int) { s.call = i }
 
 func (s *c14Sink) write(p []byte, str bool) (int, error) {
 	n, failed := len(p), false
+	idx := s.nwrites
+	s.nwrites++
 	switch {
 	case s.sticky && s.failed:
 		n, failed = 0, true
+	case s.failCall >= 0:
+		if idx == s.failCall {
+			n, failed = 0, true
+			if s.short {
+				n = len(p) / 2
+			}
+		}
 	case s.oneshot && s.failed:
 	case s.k < 0 || len(s.data)+len(p) <= s.k:
 	case s.short:
@@ -924,30 +943,54 @@ func c14SinkVariant(ctx *core.Ctx, v *c14Variant, sample bool) {
 		ks = []int{v.onlyK}
 	}
 	var obs []c14Obs
+	// fault points per Write call of the destination (not per byte offset): every call index of the
+	// fault-free sink trace; in the quick tier every call of at most 2 bytes (the byte-wise writes of
+	// the thrift encoder straight to an unbuffered destination) and a sample of the others
+	var cis []int
+	{
+		limit := ctx.Scale(500, 20000)
+		var rest []int
+		for i, w := range v.trace {
+			if w.len <= 2 && len(cis) < limit {
+				cis = append(cis, i)
+			} else {
+				rest = append(rest, i)
+			}
+		}
+		r.Shuffle(len(rest), func(i, j int) { rest[i], rest[j] = rest[j], rest[i] })
+		if m := ctx.Scale(80, 4000); len(rest) > m {
+			rest = rest[:m]
+		}
+		cis = append(cis, rest...)
+		sort.Ints(cis)
+	}
+	if v.onlyMode != "" {
+		cis = nil
+		if strings.HasPrefix(v.onlyMode, "call") {
+			cis, ks = []int{v.onlyK}, nil
+		}
+	}
+	ctx.Hist("sink.call-faults", sizeBucket(len(cis)))
 	l2budget := ctx.Scale(60, 400)
 	l2every := 1
-	if len(ks)*4 > l2budget {
-		l2every = (len(ks)*4 + l2budget - 1) / l2budget
+	if nf := len(ks)*4 + len(cis)*2; nf > l2budget {
+		l2every = (nf + l2budget - 1) / l2budget
 	}
 	n := 0
-	for _, k := range ks {
-		// full = capacity sink; oneshot* = transient failure, the sink recovers
-		modes := []string{"full", "short", "oneshot", "oneshotshort"}
-		if r.Intn(4) == 0 || k < 8 {
-			modes = append(modes, "fullsticky", "shortsticky")
-		}
-		if v.onlyMode != "" {
-			modes = []string{v.onlyMode}
-		}
-		for _, mode := range modes {
+	runFault := func(k int, mode string) {
+		{
 			sink := newC14Sink(k, mode)
 			sink.noTrace = true
 			e := c14Exec(c, v.buffered, sink, false)
 			n++
+			byCall := strings.HasPrefix(mode, "call")
 			nontrivial := k > 0 && k < total-8
+			if byCall {
+				nontrivial = k > 0 && k < len(v.trace)-1
+			}
 			ctx.Case(fmt.Sprintf("sink|%s|%d|%s", v.id(), k, mode), nontrivial)
 			ctx.Hist("sink.mode", mode)
-			if sample && k == ks[len(ks)/2] && mode == "short" {
+			if sample && len(ks) > 0 && k == ks[len(ks)/2] && mode == "short" {
 				ctx.Sample(detail(k, mode, e, nil))
 			}
 			first, held, closeRan, closeOK := -1, 0, false, false
@@ -965,22 +1008,30 @@ func c14SinkVariant(ctx *core.Ctx, v *c14Variant, sample bool) {
 					closeRan, closeOK = true, cl.err == nil
 				}
 			}
+			what := fmt.Sprintf("byte %d of %d", k, total)
+			if byCall {
+				what = fmt.Sprintf("Write call %d of %d", k, len(v.trace))
+			}
 			switch {
 			case pan != nil:
 				ctx.Fail("L1", "panic "+sig+" call="+pan.name+" "+panicClass(pan.panicked),
-					fmt.Sprintf("%s panics when the destination fails at byte %d (%s)", pan.name, k, mode), detail(k, mode, e, nil))
-				continue
+					fmt.Sprintf("%s panics when the destination fails at %s (%s)", pan.name, what, mode), detail(k, mode, e, nil))
+				return
+			case first < 0 && sink.heldAtFail < 0:
+				// the failing call index was never reached (cannot happen for a deterministic writer)
+				ctx.Hist("sink.skipped", "fault-not-reached")
+				return
 			case first < 0:
 				ctx.Fail("L1", "no-error-reported "+sig+" mode="+mode,
-					fmt.Sprintf("the destination rejected byte %d of %d (%s) and no call returned an error; the sink holds %d bytes", k, total, mode, len(sink.data)),
+					fmt.Sprintf("the destination rejected %s (%s) and no call returned an error; the sink holds %d bytes", what, mode, len(sink.data)),
 					detail(k, mode, e, nil))
-				continue
+				return
 			}
 			if sink.heldAtFail < 0 && !errors.Is(e.calls[first].err, errC14Injected) {
 				// the destination has not failed yet: the error comes from the environment (e.g. the
 				// temp-file pool of the page buffers on a full disk), not from the injected fault
 				ctx.Hist("sink.skipped", "environment-error")
-				continue
+				return
 			}
 			ctx.Hist("sink.first-reporter", e.calls[first].name)
 			// nothing altered before the fault
@@ -991,7 +1042,8 @@ func c14SinkVariant(ctx *core.Ctx, v *c14Variant, sample bool) {
 			if closeRan && first < len(e.calls)-1 {
 				if closeOK {
 					ctx.Hist("sink.close-after-error", "nil")
-					if v.buffered || (mode != "full" && !strings.HasPrefix(mode, "oneshot")) {
+					transient := mode == "full" || strings.HasPrefix(mode, "oneshot") || mode == "call" || mode == "callshort"
+					if v.buffered || !transient {
 						ctx.Fail("L1", "close-nil-after-failure "+sig+" mode="+mode,
 							"an earlier call reported the fault, and Close then returns nil although the destination cannot take another byte (sticky buffer error / sticky or short sink)",
 							detail(k, mode, e, nil))
@@ -1003,6 +1055,34 @@ func c14SinkVariant(ctx *core.Ctx, v *c14Variant, sample bool) {
 			if n%l2every == 0 {
 				obs = append(obs, c14Obs{k: k, mode: mode, first: first, held: held, closeOK: closeOK})
 			}
+		}
+	}
+	for _, k := range ks {
+		// full = capacity sink; oneshot* = transient failure, the sink recovers
+		modes := []string{"full", "short", "oneshot", "oneshotshort"}
+		if r.Intn(4) == 0 || k < 8 {
+			modes = append(modes, "fullsticky", "shortsticky")
+		}
+		if v.onlyMode != "" {
+			modes = []string{v.onlyMode}
+		}
+		for _, mode := range modes {
+			runFault(k, mode)
+		}
+	}
+	for _, i := range cis {
+		modes := []string{"call"}
+		if v.trace[i].len >= 2 {
+			modes = append(modes, "callshort")
+		}
+		if r.Intn(6) == 0 {
+			modes = append(modes, "callsticky")
+		}
+		if v.onlyMode != "" {
+			modes = []string{v.onlyMode}
+		}
+		for _, mode := range modes {
+			runFault(i, mode)
 		}
 	}
 	// L2: first reporting call and bytes held then, against the model on the same plan
@@ -1807,7 +1887,39 @@ func c14Histories(ctx *core.Ctx) []c14History {
 	hs = append(hs, c14History{"pages-seek-3/4", func(r io.ReaderAt, size int64, f *c14File) (string, string, error) {
 		return c14SeekPages(r, size, f, 3, 4)
 	}})
+	hs = append(hs, c14History{"dictfirst-pages", func(r io.ReaderAt, size int64, f *c14File) (string, string, error) {
+		return c14SeekPagesVia(r, size, f, 0, 1, true)
+	}})
+	// the library's own consumers of a RowReader (CopyRows and everything built on copyRows:
+	// Writer.ReadRowsFrom, the row path of WriteRowGroup, Buffer, SortingWriter) end the copy on
+	// `errors.Is(err, io.EOF)`: an error that merely *wraps* io.EOF is the end of input for them
+	for _, fr := range [][2]int64{{1, 2}, {0, 1}} {
+		fr := fr
+		hs = append(hs, c14History{fmt.Sprintf("copyrows-seek-%d/%d", fr[0], fr[1]), func(r io.ReaderAt, size int64, f *c14File) (string, string, error) {
+			return c14SeekRowsVia(r, size, f, fr[0], fr[1], "copyrows")
+		}})
+	}
+	hs = append(hs, c14History{"readrowsfrom-seek-1/3", func(r io.ReaderAt, size int64, f *c14File) (string, string, error) {
+		return c14SeekRowsVia(r, size, f, 1, 3, "readrowsfrom")
+	}})
 	return hs
+}
+
+// c14Collector is the RowWriter the copy histories write to: it digests what it is given
+type c14Collector struct {
+	sb  *strings.Builder
+	got int64
+}
+
+func (c *c14Collector) WriteRows(rows []parquet.Row) (int, error) {
+	for _, row := range rows {
+		c.got++
+		for _, v := range row {
+			fmt.Fprintf(c.sb, "%d:%v,", v.Column(), gen.TripleOf(v))
+		}
+		c.sb.WriteByte(';')
+	}
+	return len(rows), nil
 }
 
 func c14SeekTarget(n, num, den int64) int64 {
@@ -1819,6 +1931,12 @@ func c14SeekTarget(n, num, den int64) int64 {
 }
 
 func c14SeekRows(r io.ReaderAt, size int64, f *c14File, num, den int64) (class, digest string, err error) {
+	return c14SeekRowsVia(r, size, f, num, den, "readrows")
+}
+
+// via: readrows = the caller's own ReadRows loop (ends on err == io.EOF); copyrows = parquet.CopyRows
+// into a collecting RowWriter; readrowsfrom = Writer.ReadRowsFrom into a scratch file that is read back
+func c14SeekRowsVia(r io.ReaderAt, size int64, f *c14File, num, den int64, via string) (class, digest string, err error) {
 	defer func() {
 		if p := recover(); p != nil {
 			class, err = "panic", fmt.Errorf("%v | %s", p, c14Stack())
@@ -1833,31 +1951,63 @@ func c14SeekRows(r io.ReaderAt, size int64, f *c14File, num, den int64) (class, 
 		n := rg.NumRows()
 		k := c14SeekTarget(n, num, den)
 		rows := rg.Rows()
-		if err := rows.SeekToRow(k); err != nil {
+		if num == 0 {
+			k = 0 // no seek at all: the sequential copy
+		} else if err := rows.SeekToRow(k); err != nil {
 			rows.Close()
 			return "read-error", "", err
 		}
 		got := int64(0)
-		buf := make([]parquet.Row, 16)
-		for {
-			m, err := rows.ReadRows(buf)
-			for _, row := range buf[:m] {
-				got++
-				for _, v := range row {
-					fmt.Fprintf(&sb, "%d:%v,", v.Column(), gen.TripleOf(v))
-				}
-				sb.WriteByte(';')
+		switch via {
+		case "copyrows":
+			coll := &c14Collector{sb: &sb}
+			if _, err := parquet.CopyRows(coll, rows); err != nil {
+				rows.Close()
+				return "read-error", "", err
 			}
-			if err == io.EOF {
-				break
+			got = coll.got
+		case "readrowsfrom":
+			var out bytes.Buffer
+			w := parquet.NewWriter(&out, pf.Schema())
+			_, err := w.ReadRowsFrom(rows)
+			if err == nil {
+				err = w.Close()
 			}
 			if err != nil {
 				rows.Close()
 				return "read-error", "", err
 			}
-			if m == 0 {
+			cols, nr, err := gen.ReadRowsColumns(out.Bytes(), 16)
+			if err != nil {
 				rows.Close()
-				return "read-error", "", fmt.Errorf("ReadRows returned 0 rows and no error")
+				return "altered", "", fmt.Errorf("the file written by ReadRowsFrom does not read back: %v", err)
+			}
+			got = int64(nr)
+			for ci, col := range cols {
+				fmt.Fprintf(&sb, "col%d:%v;", ci, col)
+			}
+		default:
+			buf := make([]parquet.Row, 16)
+			for {
+				m, err := rows.ReadRows(buf)
+				for _, row := range buf[:m] {
+					got++
+					for _, v := range row {
+						fmt.Fprintf(&sb, "%d:%v,", v.Column(), gen.TripleOf(v))
+					}
+					sb.WriteByte(';')
+				}
+				if err == io.EOF {
+					break
+				}
+				if err != nil {
+					rows.Close()
+					return "read-error", "", err
+				}
+				if m == 0 {
+					rows.Close()
+					return "read-error", "", fmt.Errorf("ReadRows returned 0 rows and no error")
+				}
 			}
 		}
 		rows.Close()
@@ -1867,6 +2017,12 @@ func c14SeekRows(r io.ReaderAt, size int64, f *c14File, num, den int64) (class, 
 }
 
 func c14SeekPages(r io.ReaderAt, size int64, f *c14File, num, den int64) (class, digest string, err error) {
+	return c14SeekPagesVia(r, size, f, num, den, false)
+}
+
+// dictFirst: no seek; the dictionary of the chunk is loaded first (FilePages.ReadDictionary), so the
+// sequential read that follows meets the dictionary page again and skips it (rbuf.Discard)
+func c14SeekPagesVia(r io.ReaderAt, size int64, f *c14File, num, den int64, dictFirst bool) (class, digest string, err error) {
 	defer func() {
 		if p := recover(); p != nil {
 			class, err = "panic", fmt.Errorf("%v | %s", p, c14Stack())
@@ -1881,7 +2037,15 @@ func c14SeekPages(r io.ReaderAt, size int64, f *c14File, num, den int64) (class,
 		k := c14SeekTarget(rg.NumRows(), num, den)
 		for ci, cc := range rg.ColumnChunks() {
 			pages := cc.Pages()
-			if err := pages.SeekToRow(k); err != nil {
+			if dictFirst {
+				k = 0
+				if fp, ok := pages.(*parquet.FilePages); ok {
+					if _, err := fp.ReadDictionary(); err != nil {
+						pages.Close()
+						return "read-error", "", err
+					}
+				}
+			} else if err := pages.SeekToRow(k); err != nil {
 				pages.Close()
 				return "read-error", "", err
 			}
@@ -1979,6 +2143,9 @@ func c14ReadAtHistory(ctx *core.Ctx, f *c14File, h c14History, bounds []int64, s
 		// or between a page header and its body (the places where a premature io.EOF can look
 		// like the end of a column chunk or of a page)
 		cuts := []int{-1}
+		if ln > 1 {
+			cuts = append(cuts, 0) // (0, io.EOF) / (0, err): nothing delivered
+		}
 		if ln > 2 {
 			cuts = append(cuts, 1, ln-1)
 		}
